@@ -45,7 +45,9 @@ def main():
             {"name": "dashu-facts", "path": "/verif/driver", "serves_properties": [c["property_id"] for c in checks],
              "kind_free_text": "rustc_private driver (RUSTC_WORKSPACE_WRAPPER) exporting items, impl table, unoptimised MIR with resolved callees, HIR unsafe blocks, constants for 5 build configurations"},
             {"name": "rules", "path": "/verif/rules", "serves_properties": [c["property_id"] for c in checks],
-             "kind_free_text": "Python rule engine over the fact base: CFG/dominators, must-pass-through, symbolic guard facts, typestate with function summaries, who-may-write tables, finite decision tables"},
+             "kind_free_text": "Python rule engine over the fact base: CFG/dominators, must-pass-through, symbolic guard facts, typestate with function summaries, coprimality prover, who-may-write tables, finite decision tables over abstract domains, bound-polarity type system, half-test pairing, sibling agreement, frozen inventories"},
+            {"name": "witness", "path": "/verif/rules/witness.py", "serves_properties": ["C05", "C13", "C17", "C20"],
+             "kind_free_text": "compile-fail doc-test witnesses with compiling twins (cargo +nightly test --doc --offline on a generated crate path-depending on /repo); thorough tier only"},
         ],
         "checks": checks,
         "not_applicable": na,
